@@ -50,104 +50,110 @@ const KNOWN_KEYS: &[&str] = &[
     "description", "new_type", "new_default", "from", "to", "sql", "expr", "prefix", "seaorm", "modelFormat",
 ];
 
-/// one mutation step; returns a label
+/// one mutation step; returns a label.  The operation is drawn first, then a node of the shape the
+/// operation needs (so that most mutants stay close to acceptable documents).
 pub fn mutate_once(rng: &mut Rng, doc: &mut J) -> &'static str {
     let paths = doc.paths();
-    let p = rng.pick(&paths).clone();
-    let op = rng.below(14);
+    let objs: Vec<Vec<usize>> = paths.iter().filter(|p| matches!(doc.at(p), J::O(_))).cloned().collect();
+    let small_objs: Vec<Vec<usize>> = objs.iter().filter(|p| !p.is_empty()).cloned().collect();
+    let leaves: Vec<Vec<usize>> = paths.iter().filter(|p| !p.is_empty() && !matches!(doc.at(p), J::O(_) | J::A(_))).cloned().collect();
+    let nums: Vec<Vec<usize>> = leaves.iter().filter(|p| matches!(doc.at(p), J::U(_) | J::I(_) | J::F(_))).cloned().collect();
+    let strs: Vec<Vec<usize>> = leaves.iter().filter(|p| matches!(doc.at(p), J::S(_))).cloned().collect();
+    let inner: Vec<Vec<usize>> = paths.iter().filter(|p| !p.is_empty()).cloned().collect();
+    let any_leaf = |rng: &mut Rng| -> Option<Vec<usize>> { if leaves.is_empty() { None } else { Some(rng.pick(&leaves).clone()) } };
+    let op = rng.below(18);
     match op {
         0 | 1 | 2 => {
+            let Some(p) = (if rng.chance(3, 4) { any_leaf(rng) } else if inner.is_empty() { None } else { Some(rng.pick(&inner).clone()) }) else { return "noop" };
             *doc.at_mut(&p) = pool(rng);
             "replace"
         }
-        3 | 4 => {
-            // drop a member / element of the chosen container
-            match doc.at_mut(&p) {
-                J::O(l) if !l.is_empty() => {
-                    let i = rng.below(l.len());
-                    l.remove(i);
-                    "drop-member"
-                }
-                J::A(l) if !l.is_empty() => {
-                    let i = rng.below(l.len());
-                    l.remove(i);
-                    "drop-element"
-                }
-                other => {
-                    *other = J::Null;
-                    "null"
-                }
-            }
-        }
-        5 => match doc.at_mut(&p) {
-            J::O(l) => {
-                let k = if rng.chance(1, 2) { "zz_unknown".to_string() } else { rng.pick(KNOWN_KEYS).to_string() };
-                let v = pool(rng);
-                if rng.chance(1, 2) { l.push((k, v)) } else { l.insert(0, (k, v)) }
-                "add-member"
-            }
-            other => {
-                *other = pool(rng);
-                "replace"
-            }
-        },
-        6 => match doc.at_mut(&p) {
-            J::O(l) if !l.is_empty() => {
-                let i = rng.below(l.len());
-                let (k, v) = l[i].clone();
-                let v2 = if rng.chance(1, 2) { v } else { pool(rng) };
-                if rng.chance(1, 2) { l.push((k, v2)) } else { l.insert(0, (k, v2)) }
-                "duplicate-member"
-            }
-            other => {
-                *other = pool(rng);
-                "replace"
-            }
-        },
-        7 => match doc.at_mut(&p) {
-            // retag: another variant name, or the variant *index* as an integer
-            J::O(l) => {
-                let mut done = false;
-                for (k, v) in l.iter_mut() {
-                    if k == "type" || k == "kind" {
-                        *v = if rng.chance(1, 3) {
-                            J::U(rng.below(14) as u64)
-                        } else if k == "type" {
-                            J::S(rng.pick(TAGS_TYPE).to_string())
-                        } else {
-                            J::S(rng.pick(TAGS_KIND).to_string())
-                        };
-                        done = true;
-                        break;
-                    }
-                }
-                if !done && !l.is_empty() {
-                    let i = rng.below(l.len());
-                    l[i].0 = rng.pick(KNOWN_KEYS).to_string();
-                    return "rename-key";
-                }
-                "retag"
-            }
-            other => {
-                *other = pool(rng);
-                "replace"
-            }
-        },
-        8 | 9 => {
-            // another subtree of the same document (other union branch, other type)
-            let q = rng.pick(&paths).clone();
-            let v = doc.at(&q).clone();
-            if p.is_empty() {
+        3 | 4 | 5 => {
+            if objs.is_empty() {
                 return "noop";
             }
+            let p = rng.pick(&objs).clone();
+            if let J::O(l) = doc.at_mut(&p) {
+                if !l.is_empty() {
+                    let i = rng.below(l.len());
+                    l.remove(i);
+                }
+            }
+            "drop-member"
+        }
+        6 | 7 => {
+            if objs.is_empty() {
+                return "noop";
+            }
+            let p = rng.pick(&objs).clone();
+            let k = if rng.chance(2, 3) { "zz_unknown".to_string() } else { rng.pick(KNOWN_KEYS).to_string() };
+            let v = pool(rng);
+            if let J::O(l) = doc.at_mut(&p) {
+                if rng.chance(1, 2) { l.push((k, v)) } else { l.insert(0, (k, v)) }
+            }
+            "add-member"
+        }
+        8 => {
+            if objs.is_empty() {
+                return "noop";
+            }
+            let p = rng.pick(&objs).clone();
+            let pv = pool(rng);
+            if let J::O(l) = doc.at_mut(&p) {
+                if !l.is_empty() {
+                    let i = rng.below(l.len());
+                    let (k, v) = l[i].clone();
+                    let v2 = if rng.chance(1, 2) { v } else { pv };
+                    if rng.chance(1, 2) { l.push((k, v2)) } else { l.insert(0, (k, v2)) }
+                }
+            }
+            "duplicate-member"
+        }
+        9 | 10 => {
+            // retag: another variant name, or the variant *index* as an integer
+            let tagged: Vec<Vec<usize>> = objs.iter().filter(|p| matches!(doc.at(p), J::O(l) if l.iter().any(|(k, _)| k == "type" || k == "kind"))).cloned().collect();
+            if tagged.is_empty() {
+                return "noop";
+            }
+            let p = rng.pick(&tagged).clone();
+            let r = rng.below(3);
+            let idx = rng.below(14) as u64;
+            let tt = rng.pick(TAGS_TYPE).to_string();
+            let tk = rng.pick(TAGS_KIND).to_string();
+            if let J::O(l) = doc.at_mut(&p) {
+                for (k, v) in l.iter_mut() {
+                    if k == "type" || k == "kind" {
+                        if let J::S(_) = v {
+                            *v = if r == 0 { J::U(idx) } else if k == "type" { J::S(tt.clone()) } else { J::S(tk.clone()) };
+                            break;
+                        }
+                    }
+                }
+            }
+            "retag"
+        }
+        11 | 12 => {
+            // another subtree of the same document (other union branch, other type)
+            if inner.len() < 2 {
+                return "noop";
+            }
+            let p = rng.pick(&inner).clone();
+            let q = rng.pick(&inner).clone();
+            let v = doc.at(&q).clone();
             *doc.at_mut(&p) = v;
             "graft"
         }
-        10 | 11 => match doc.at_mut(&p) {
+        13 | 14 => {
             // positional form of a struct, possibly truncated or extended
-            J::O(l) => {
+            let cands = if rng.chance(4, 5) && !small_objs.is_empty() { &small_objs } else { &objs };
+            if cands.is_empty() {
+                return "noop";
+            }
+            let p = rng.pick(cands).clone();
+            let r = rng.below(5);
+            if let J::O(l) = doc.at(&p).clone() {
                 let mut vals: Vec<J> = l.iter().map(|(_, v)| v.clone()).collect();
-                match rng.below(4) {
+                match r {
                     0 if !vals.is_empty() => {
                         vals.pop();
                     }
@@ -155,47 +161,52 @@ pub fn mutate_once(rng: &mut Rng, doc: &mut J) -> &'static str {
                     _ => {}
                 }
                 *doc.at_mut(&p) = J::A(vals);
-                "seq-form"
             }
-            J::S(s) => {
-                // unit variant written as a one-member object
-                let k = s.clone();
-                *doc.at_mut(&p) = J::O(vec![(k, if rng.chance(3, 4) { J::Null } else { J::U(0) })]);
-                "unit-as-map"
+            "seq-form"
+        }
+        15 => {
+            // unit variant written as a one-member object
+            if strs.is_empty() {
+                return "noop";
             }
-            other => {
-                *other = pool(rng);
-                "replace"
+            let p = rng.pick(&strs).clone();
+            let inner_v = match rng.below(6) {
+                0 => J::U(0),
+                1 => J::O(vec![]),
+                _ => J::Null,
+            };
+            if let J::S(s) = doc.at(&p).clone() {
+                *doc.at_mut(&p) = J::O(vec![(s, inner_v)]);
             }
-        },
-        12 => match doc.at_mut(&p) {
-            J::U(_) | J::I(_) | J::F(_) => {
-                *doc.at_mut(&p) = match rng.below(8) {
-                    0 => J::U(4294967296),
-                    1 => J::U(4294967295),
-                    2 => J::I(-1),
-                    3 => J::F(1.0),
-                    4 => J::U(2147483648),
-                    5 => J::I(-2147483649),
-                    6 => J::F(2.5),
-                    _ => J::S("1".into()),
-                };
-                "boundary-number"
+            "unit-as-map"
+        }
+        16 => {
+            if nums.is_empty() {
+                return "noop";
             }
-            other => {
-                *other = pool(rng);
-                "replace"
+            let p = rng.pick(&nums).clone();
+            *doc.at_mut(&p) = match rng.below(8) {
+                0 => J::U(4294967296),
+                1 => J::U(4294967295),
+                2 => J::I(-1),
+                3 => J::F(1.0),
+                4 => J::U(2147483648),
+                5 => J::I(-2147483649),
+                6 => J::F(2.5),
+                _ => J::S("1".into()),
+            };
+            "boundary-number"
+        }
+        _ => {
+            let big: Vec<Vec<usize>> = objs.iter().filter(|p| matches!(doc.at(p), J::O(l) if l.len() >= 2)).cloned().collect();
+            if big.is_empty() {
+                return "noop";
             }
-        },
-        _ => match doc.at_mut(&p) {
-            J::O(l) if l.len() >= 2 => {
+            let p = rng.pick(&big).clone();
+            if let J::O(l) = doc.at_mut(&p) {
                 rng.shuffle(l);
-                "permute-members"
             }
-            other => {
-                *other = J::Null;
-                "null"
-            }
-        },
+            "permute-members"
+        }
     }
 }
